@@ -170,7 +170,7 @@ fn region_wiring(files: &[File]) -> Res<Vec<Wiring>> {
         };
         let what = format!("region wiring ({})", variant);
         let (segs, args) = call_parts(&arm.body).ok_or(format!("{}: arm body is not State::X(..)", what))?;
-        if segs.len() != 2 || segs[0] != "State" || args.len() != 1 {
+        if segs.len() != 2 || (segs[0] != "State" && segs[0] != "Self") || args.len() != 1 {
             return Err(format!("{}: arm body is not State::X(ctor)", what));
         }
         let (csegs, cargs) = call_parts(args[0]).ok_or(format!("{}: constructor is not a call", what))?;
@@ -299,6 +299,27 @@ fn impl_const_params(im: &ItemImpl, what: &str) -> Res<Vec<(String, &'static str
     Ok(ps)
 }
 
+/// value of an arithmetic expression over integer literals
+fn fold_const(e: &Expr) -> Option<i128> {
+    match e {
+        Expr::Lit(ExprLit { lit: Lit::Int(i), .. }) => i.base10_parse::<i128>().ok(),
+        Expr::Paren(p) => fold_const(&p.expr),
+        Expr::Group(g) => fold_const(&g.expr),
+        Expr::Binary(b) => {
+            let (l, r) = (fold_const(&b.left)?, fold_const(&b.right)?);
+            match b.op {
+                BinOp::Add(_) => l.checked_add(r),
+                BinOp::Sub(_) => l.checked_sub(r),
+                BinOp::Mul(_) => l.checked_mul(r),
+                BinOp::Shl(_) if (0..64).contains(&r) => Some(l << r),
+                BinOp::BitOr(_) => Some(l | r),
+                _ => None,
+            }
+        }
+        _ => None,
+    }
+}
+
 fn lean_params(ps: &[(String, &'static str)]) -> String {
     ps.iter().map(|(n, _)| format!(" ({} : Int)", n)).collect::<String>()
 }
@@ -335,9 +356,15 @@ fn translate_region_type(files: &[File], reg: &mut Registry, out: &mut String, r
                         let mut env: HashMap<String, Ty> = ps.iter().map(|(n, t)| (n.clone(), Ty::Int(t))).collect();
                         let mut st = vec![];
                         let (term, _) = tr.ex(&c.expr, &mut env, &mut st, Some(ty.clone())).map_err(|e| format!("{}::{}: {}", what, name, e))?;
-                        if !st.is_empty() {
-                            return Err(format!("{}::{}: not a pure constant expression", what, name));
-                        }
+                        let term = if st.is_empty() {
+                            term
+                        } else {
+                            // arithmetic over literals (`869_000_000 + 525_000`): folded here, with the type's range check
+                            match (fold_const(&c.expr), &ty) {
+                                (Some(v), Ty::Int(t)) if crate::tr::int_range(t).0 <= v && v <= crate::tr::int_range(t).1 => v.to_string(),
+                                _ => return Err(format!("{}::{}: not a pure constant expression", what, name)),
+                            }
+                        };
                         (ty, term)
                     };
                     writeln!(out, "/-- `{}`: `const {}` -/", what, name).unwrap();
@@ -776,9 +803,11 @@ struct CmpSpec {
     fn_name: &'static str,
     /// the comparison is the first one (pre-order) whose source mentions all of these
     needles: &'static [&'static str],
-    /// sub-expressions (compared modulo white space) that become parameters
-    abstractions: &'static [(&'static str, &'static str)],
-    /// parameters (name, integer type): the abstractions and the local variables the comparison reads
+    /// parameters (name, integer type), positional: the OPERANDS of the comparison in order of first
+    /// appearance.  An operand is a maximal sub-expression that is not arithmetic over literals and
+    /// known constants: a local variable, a field (`self.adr_ack_cnt`), a call (`cmd.payload_len()`).
+    /// Named this way a rewrite that only introduces or removes a local (`let n = cmd.payload_len();`)
+    /// yields the same generated function.
     params: &'static [(&'static str, &'static str)],
     lean: &'static str,
 }
@@ -820,29 +849,54 @@ fn comparison_fn(files: &[File], reg: &mut Registry, out: &mut String, spec: &Cm
     fd.visit_block(block);
     let mut cmp = fd.found.ok_or(format!("{}: no comparison mentioning {:?}", what, spec.needles))?;
     let source = quote::quote!(#cmp).to_string();
-    struct Subst {
-        pairs: Vec<(String, String)>,
-        used: Vec<bool>,
+    // operands → parameters, in order of first appearance
+    struct Operands<'r> {
+        reg: &'r Registry,
+        seen: Vec<String>,
+        names: Vec<String>,
+        overflow: bool,
     }
-    impl VisitMut for Subst {
-        fn visit_expr_mut(&mut self, e: &mut Expr) {
-            let s = squash(e);
-            for (k, (from, to)) in self.pairs.iter().enumerate() {
-                if s == *from {
-                    let id = Ident::new(to, proc_macro2::Span::call_site());
-                    *e = parse_quote!(#id);
-                    self.used[k] = true;
-                    return;
+    impl<'r> Operands<'r> {
+        fn replace(&mut self, e: &mut Expr) {
+            let key = squash(e);
+            let k = match self.seen.iter().position(|s| *s == key) {
+                Some(k) => k,
+                None => {
+                    self.seen.push(key);
+                    self.seen.len() - 1
                 }
+            };
+            match self.names.get(k) {
+                Some(n) => {
+                    let id = Ident::new(n, proc_macro2::Span::call_site());
+                    *e = parse_quote!(#id);
+                }
+                None => self.overflow = true,
             }
-            syn::visit_mut::visit_expr_mut(self, e);
         }
     }
-    let mut sb = Subst { pairs: spec.abstractions.iter().map(|(a, b)| (a.chars().filter(|c| !c.is_whitespace()).collect(), b.to_string())).collect(), used: vec![false; spec.abstractions.len()] };
-    sb.visit_expr_mut(&mut cmp);
-    if let Some(k) = sb.used.iter().position(|u| !*u) {
-        return Err(format!("{}: the comparison `{}` does not contain `{}`", what, source, spec.abstractions[k].0));
+    impl<'r> VisitMut for Operands<'r> {
+        fn visit_expr_mut(&mut self, e: &mut Expr) {
+            match e {
+                Expr::Binary(_) | Expr::Paren(_) | Expr::Group(_) | Expr::Cast(_) | Expr::Unary(_) | Expr::Lit(_) | Expr::Reference(_) => syn::visit_mut::visit_expr_mut(self, e),
+                Expr::Path(p) => {
+                    let known = p.path.segments.len() > 1 || self.reg.consts.contains_key(&last_ident(&p.path));
+                    if !known {
+                        self.replace(e);
+                    }
+                }
+                _ => self.replace(e),
+            }
+        }
+        // the target type of a cast is no operand
+        fn visit_type_mut(&mut self, _: &mut Type) {}
     }
+    let mut ops = Operands { reg, seen: vec![], names: spec.params.iter().map(|(n, _)| n.to_string()).collect(), overflow: false };
+    ops.visit_expr_mut(&mut cmp);
+    if ops.overflow || ops.seen.len() != spec.params.len() {
+        return Err(format!("{}: the comparison `{}` has the operands {:?}, expected {} ({:?})", what, source, ops.seen, spec.params.len(), spec.params.iter().map(|p| p.0).collect::<Vec<_>>()));
+    }
+    let operand_doc = ops.seen.iter().zip(spec.params.iter()).map(|(s, (n, t))| format!("{} : {} = `{}`", n, t, s)).collect::<Vec<_>>().join(", ");
     let params: Vec<(String, Ty)> = spec.params.iter().map(|(n, t)| (n.to_string(), Ty::Int(int_ty(t).expect("CmpSpec: integer type")))).collect();
     let seq = {
         let mut tr = new_tr(reg, None, spec.lean);
@@ -855,7 +909,7 @@ fn comparison_fn(files: &[File], reg: &mut Registry, out: &mut String, spec: &Cm
         Seq { stmts: st, tail: Tail::Val(term) }
     };
     writeln!(out, "/-- `{}`: the comparison `{}`,", what, source.replace('\n', " ")).unwrap();
-    writeln!(out, "as a function of {} -/", spec.params.iter().map(|(n, t)| format!("{} : {}", n, t)).collect::<Vec<_>>().join(", ")).unwrap();
+    writeln!(out, "as a function of its operands {} -/", operand_doc).unwrap();
     emit_fn(out, spec.lean, &params, &Ty::Bool, &seq);
     Ok(())
 }
@@ -873,7 +927,6 @@ pub fn add_mac_command_fits(files: &[File], _n: &[String], reg: &mut Registry, o
             ty_name: Some("Uplink"),
             fn_name: "add_mac_command",
             needles: &["FOPTS_MAX_LEN"],
-            abstractions: &[("self.pending.len()", "pending_len"), ("cmd.payload_len()", "payload_len")],
             params: &[("pending_len", "usize"), ("payload_len", "usize")],
             lean: "Uplink.add_mac_command.fits",
         },
@@ -890,7 +943,6 @@ pub fn handle_rx_oversized(files: &[File], _n: &[String], reg: &mut Registry, ou
             ty_name: Some("Session"),
             fn_name: "handle_rx",
             needles: &["max_payload_len"],
-            abstractions: &[],
             params: &[("payload_len", "usize"), ("max_payload_len", "u8")],
             lean: "Session.handle_rx.oversized",
         },
@@ -907,7 +959,6 @@ pub fn rx2_complete_backoff_due(files: &[File], _n: &[String], reg: &mut Registr
             ty_name: Some("Session"),
             fn_name: "rx2_complete",
             needles: &["ADR_ACK_LIMIT", "ADR_ACK_DELAY"],
-            abstractions: &[("self.adr_ack_cnt", "adr_ack_cnt")],
             params: &[("adr_ack_cnt", "u32")],
             lean: "Session.rx2_complete.backoff_due",
         },
@@ -924,7 +975,6 @@ pub fn prepare_buffer_adr_ack_req(files: &[File], _n: &[String], reg: &mut Regis
             ty_name: Some("Session"),
             fn_name: "prepare_buffer",
             needles: &["ADR_ACK_LIMIT"],
-            abstractions: &[("self.adr_ack_cnt", "adr_ack_cnt")],
             params: &[("adr_ack_cnt", "u32")],
             lean: "Session.prepare_buffer.adr_ack_limit_reached",
         },
@@ -938,7 +988,7 @@ pub fn fcnt_up_exhausted(files: &[File], _n: &[String], reg: &mut Registry, out:
             files,
             reg,
             out,
-            &CmpSpec { ty_name: Some("Session"), fn_name: f, needles: &["self.fcnt_up"], abstractions: &[("self.fcnt_up", "fcnt_up")], params: &[("fcnt_up", "u32")], lean },
+            &CmpSpec { ty_name: Some("Session"), fn_name: f, needles: &["self.fcnt_up"], params: &[("fcnt_up", "u32")], lean },
         )?;
     }
     Ok(())
